@@ -1,6 +1,7 @@
 #include <nano/gboost/result.h>
 #include <nano/gboost/util.h>
 #include <nano/wlearner/util.h>
+#include <nano/verif.h>
 
 using namespace nano;
 using namespace nano::gboost;
@@ -58,6 +59,7 @@ void result_t::update(const tensor_size_t round, const scalar_t shrinkage_ratio,
     m_statistics(round, 5) = static_cast<scalar_t>(state.fcalls());
     m_statistics(round, 6) = static_cast<scalar_t>(state.gcalls());
     m_statistics(round, 7) = static_cast<scalar_t>(state.status());
+    NANO_VERIF_TRACE("gboost.result.stats", round, m_statistics.tensor(round));
 }
 
 void result_t::update(const tensor_size_t round, const scalar_t shrinkage_ratio, const solver_state_t& state,
@@ -65,11 +67,13 @@ void result_t::update(const tensor_size_t round, const scalar_t shrinkage_ratio,
 {
     update(round, shrinkage_ratio, state);
     m_wlearners.emplace_back(std::move(wlearner));
+    NANO_VERIF_TRACE("gboost.result.append", round, m_wlearners.size(), ::nano::verif::identity(m_wlearners.back().get()));
 }
 
 void result_t::done(const tensor_size_t optimum_round)
 {
     m_wlearners.erase(m_wlearners.begin() + optimum_round, m_wlearners.end());
     m_statistics = m_statistics.slice(0, optimum_round + 1);
+    NANO_VERIF_TRACE("gboost.result.done", optimum_round, ::nano::verif::identities(m_wlearners), m_statistics);
     ::nano::wlearner::merge(m_wlearners);
 }
